@@ -6,6 +6,10 @@ ALL = ["C%02d" % i for i in range(1, 20)]
 
 # id -> (technique, level text, level note, design ref)
 CLAIMED = {
+ "C10": ("rapid property-based testing: generated near-duplicate rule lists vs. an independent fact-set denotation (reference-compiler differential for ABI-3 kinds)",
+         "Generated search: 40k lists per quick run (1.6M thorough) of 2-12 rules in which two thirds are near-duplicates of an earlier rule; an independent denotation (rule -> set of qualifier/subject/permission facts, written from apparmor.d(5)) must be unchanged by Merge, and Merge must be idempotent. Fixed witnesses keep every repaired finding under regression.",
+         "Trusts the denotation in c10_test.go (which lists are disjunctive, that an absent list means 'all') and the reflection bridge; conflicting exec transitions on one path are not generated (invalid policy).",
+         "DESIGN.md §2 C10"),
  "C11": ("rapid property-based testing: generated pairs/triples/permuted lists vs. order axioms",
          "Generated search: 50k pairs, 50k triples, 4k permuted lists per quick run (millions thorough) from a narrow vocabulary where near-duplicates are the norm; antisymmetry, reflexivity, transitivity, equal=>identical and permutation-independence / idempotence of Sort are checked on every case. No proof of absence: a violation confined to values outside the vocabulary is not reached.",
          "Trusts rapid's generators/shrinker and the harness' reflection bridge (rs.go) between field maps and the library structs; Comment rules are outside the domain (documented as never compared).",
